@@ -990,15 +990,18 @@ def r_number_tensor_siblings(prog: Program, col: Collector, refs: Refs, cat: Cat
         for mname, m in tc.cls.methods.items():
             if isinstance(m.node, ast.Lambda):
                 continue
-            for top in walk_no_nested(m.node):
-                if not isinstance(top, ast.If):
+            # dispatch chains: an if/elif chain, or (after canonicalisation of early exits) consecutive `if`s of one block
+            blocks = [m.node.body] + [getattr(x, f) for x in walk_no_nested(m.node) for f in ("body", "orelse") if isinstance(getattr(x, f, None), list)
+                                      and getattr(x, f) and isinstance(getattr(x, f)[0], ast.stmt)]
+            for block in blocks:
+                chain_ifs = [st for st in block if isinstance(st, ast.If)]
+                if not chain_ifs:
                     continue
-                par = m.module.parent.get(top)
-                if isinstance(par, ast.If) and top in par.orelse:
-                    continue  # not the head of the chain
+                top = chain_ifs[0]
                 branches = {}
-                cur = top
-                while isinstance(cur, ast.If):
+                queue = list(chain_ifs)
+                while queue:
+                    cur = queue.pop(0)
                     t = cur.test
                     kind, var = None, None
                     if isinstance(t, ast.Call) and isinstance(t.func, ast.Name) and t.func.id == "isinstance" and len(t.args) == 2 and isinstance(t.args[0], ast.Name):
@@ -1012,7 +1015,8 @@ def r_number_tensor_siblings(prog: Program, col: Collector, refs: Refs, cat: Cat
                         kind, var = "Tensor", t.left.value.args[0].id
                     if kind:
                         branches[kind] = (var, cur.body)
-                    cur = cur.orelse[0] if len(cur.orelse) == 1 and isinstance(cur.orelse[0], ast.If) else None
+                    if len(cur.orelse) == 1 and isinstance(cur.orelse[0], ast.If):
+                        queue.insert(0, cur.orelse[0])
                 if set(branches) != {"Number", "Tensor"} or branches["Number"][0] != branches["Tensor"][0]:
                     continue
 
